@@ -5,4 +5,5 @@ let () = Driver.main [
   { Driver.name = "st"; run = st_run; judge = st_judge };
   { Driver.name = "st_tolerant"; run = st_run; judge = st_judge_tolerant };
   { Driver.name = "fv"; run = fv_run; judge = fv_judge };
+  { Driver.name = "crypto"; run = crypto_run; judge = crypto_judge };
 ]
